@@ -22,7 +22,7 @@ VERIF = Path(__file__).resolve().parent.parent
 SPEC = VERIF / "spec"
 BUILD = VERIF / "build"
 CLASSES = BUILD / "classes"
-EVIDENCE = VERIF / "evidence"
+EVIDENCE = Path(os.environ["VERIF_EVIDENCE_DIR"]) if os.environ.get("VERIF_EVIDENCE_DIR") else VERIF / "evidence"      # seeded-change runs write elsewhere
 REPLAY = VERIF / "replay"
 REPO = Path(os.environ.get("VERIF_REPO", "/repo"))
 TLA_JAR = "/opt/veriftools/tla/tla2tools.jar"
